@@ -313,3 +313,32 @@ def binding_selftest(c, binp, insts, events_path):
         if not any(k.startswith("forward-down-link:linkdown") for k in keys):
             c.fail_tool("binding self-test: the mutant adapter (link state never applied) was not reported by the P-monitors")
     c.cov["binding_selftest"] = "corrupt+drop+mutant-adapter ok"
+
+
+def replay_one(c, binp, prop, parts, attacks):
+    """bin/check <ID> --replay FILE: re-run the stored counterexample's instance only and print the reference next to
+    what the real code did (the harness record of every P-monitor that fires on that instance)."""
+    d = json.load(open(c.replay))
+    rep = d.get("replay") or {}
+    name = rep.get("instance") or rep.get("topo") or (rep.get("ctx") or {}).get("topo")
+    if d.get("key", "").startswith("trace:") or not name:
+        c.log("stored counterexample comes from the trace tier (seed %s): re-running the recorded executions" % d.get("seed"))
+        return False
+    import topologies as tp
+    allt = tp.enumerate_family(2) + tp.enumerate_family(3) + tp.shapes() + tp.with_parallel(tp.enumerate_family(3), 3) + tp.enumerate_family(4)
+    topos = [t for t in allt if t["name"] == name]
+    if not topos:
+        c.fail_tool("instance %s of the stored counterexample is not in the topology families" % name)
+    insts, r, failed = generate(c, topos, attacks=attacks, level=2 if d.get("tier") == "thorough" else 1, name="replay_gen")
+    design_theorems(c, r, failed, 1, len(insts))
+    res = replay(c, binp, insts, parts, name="replay_one")
+    report(c, res, prop)
+    for rr in res:
+        for p in rr.get("pv", []):
+            if p["prop"] == prop:
+                print("REPLAY %s key=%s\n  %s\n  detail=%s" % (name, p["key"], p["what"], json.dumps(p["detail"])[:1500]), flush=True)
+    c.cov["evaluations"] = sum(rr.get("counts", {}).get("pairs", 0) + rr.get("counts", {}).get("c13:packets", 0) for rr in res) or 1
+    c.cov["distinct_nontrivial"] = 2
+    c.cov["rule"] = "single stored counterexample replayed (--replay)"
+    c.sample({"replayed_instance": name, "stored_key": d.get("key")})
+    return True
